@@ -154,4 +154,36 @@ Proof.
     + destruct R as [Er1 Eo1]. cbn [app]. apply P; auto. lia.
 Qed.
 
+(* the same when the owner replaces the node's buffer list between calls: the stream of a
+   channel over the calls in which it has both an input and an output buffer is continuous *)
+Theorem delay_stream_v : forall (calls : list (list bufs * bufs)) (rings : list (fixed Smp)),
+  Forall InvF rings -> Forall (fun call => wf_call (fst call) /\ wfbs (snd call)) calls ->
+  exists rings' outs, delay_calls_v rings calls = Ok (rings', outs) /\
+    Forall InvF rings' /\ length rings' = length rings /\
+    Forall2 (fun call o => length o = length (snd call)) calls outs /\
+    forall c r, nth_error rings c = Some r ->
+      fed_stream_v c calls outs = firstn (length (in_stream_v c calls)) (fq r ++ in_stream_v c calls).
+Proof.
+  induction calls as [|[inputs output] ct IH]; intros rings Hr Hc.
+  - exists rings, []. cbn. repeat split; auto.
+  - inversion Hc as [|? ? [Hc1 Ho] Hc2]; subst. cbn [fst snd] in *. cbn [delay_calls_v].
+    destruct (delay_call_total rings inputs output Hr Hc1 Ho) as [rings1 [out1 [E1 [Hr1 [Ho1 [Lr Lo]]]]]].
+    rewrite E1. cbn [bind fst snd].
+    destruct (IH rings1 Hr1 Hc2) as [rings' [outs [-> [Hr' [Lr' [Hl P]]]]]]. cbn [bind fst snd].
+    eexists _, _. split; [reflexivity|]. split; [exact Hr'|]. split; [congruence|]. split.
+    { constructor; auto. }
+    intros c r Er.
+    pose proof (delay_call_chan rings inputs output rings1 out1 c Hr Hc1 Ho E1) as R.
+    rewrite Er in R. unfold in_stream_v. cbn [fed_stream_v flat_map]. fold (in_stream_v c ct).
+    unfold chan_fed. cbn [fst snd]. unfold chan_rel in R.
+    destruct (chan_in c inputs) as [ib|] eqn:Ein; destruct (nth_error output c) as [ob|] eqn:Eob.
+    + destruct R as [r1 [Er1 [L1 [I1 [Q1 Eo1]]]]]. rewrite Eo1.
+      assert (Hib : wfb ib).
+      { destruct inputs as [|inp rest]; [discriminate|]. cbn in Ein. inversion Hc1; subst. eapply wfbs_nth; eauto. }
+      rewrite (P c r1 Er1), Q1, app_length, Hib. now apply stream_split.
+    + destruct R as [Er1 Eo1]. cbn [app]. apply P; auto.
+    + destruct R as [Er1 Eo1]. cbn [app]. apply P; auto.
+    + destruct R as [Er1 Eo1]. cbn [app]. apply P; auto.
+Qed.
+
 End DelayProofs.
